@@ -3,6 +3,7 @@ from pyvc.cdef import Contract, LoopSpec
 
 SCHEMA = {
     'RawPacketData': {'__bytes__': 'bytes', 'pos': 'int'},
+    'CCSDSPacket': {'raw_data': ('mobj', 'RawPacketData'), '__items__': 'odict'},
 }
 
 RPD = ('mobj', 'RawPacketData')
@@ -135,6 +136,8 @@ CONTRACTS = [
         ensures={
             # C03: the unsigned big-endian value of bits start_bit .. start_bit+nbits-1
             'value': 'implies(start_bit + nbits <= 8 * len(data), result == bits(data, start_bit, nbits))',
+            # whatever is returned (also past the end of the buffer) is an nbits-bit unsigned value
+            'range': '0 <= result and result < pow2(nbits)',
         },
         # inside the buffer nothing may be raised; past the end CPython may reject the negative shift count
         may_raise={'ValueError': 'start_bit + nbits > 8 * len(data)'},
@@ -151,6 +154,7 @@ CONTRACTS = [
         ensures={
             'value': 'implies(old(self.pos) + nbits <= 8 * len(self), result == bits(self, old(self.pos), nbits))',
             'cursor': 'self.pos == old(self.pos) + nbits',
+            'range': '0 <= result and result < pow2(nbits)',
         },
         may_raise={'ValueError': 'self.pos + nbits > 8 * len(self)'},
         modifies=['self.pos'],
